@@ -167,8 +167,8 @@ check was strengthened (never special-cased to the seed) and the table says so.
 
 """ + tab("seeds") + """
 
-Known blind spot: **C13_3** (a `torch.int16` index in the best-of-group selection, wrong only from batch size 8192 on) is
-not detected. The stand-in models integer tensors as mathematical integers (no wrap-around) and the bound is B <= 3; a
+Known blind spot: **C13_3** (a `torch.int16` parent index in beam search, wrong only once (beam_width - 1) * batch_size
+reaches 32768, e.g. width 5 and batch 8192) is not detected. The stand-in models integer tensors as mathematical integers (no wrap-around) and the bound is B <= 3; a
 bit-vector model of narrow integer dtypes would be needed. It is kept in `seeded/` marked `not_detected`.
 
 ### 8.7 What is not covered (summary; details per check in 8.2 and MANIFEST)
